@@ -15,6 +15,7 @@ out=${SEEDPAR_OUT:-/verif/seeded/RESULTS.md}   # SEEDPAR_ONLY="C09-m6 C20-m2" re
 head=$(git -C /repo rev-parse HEAD)
 rm -rf $base; mkdir -p $base
 : > $base/results.txt
+engine_of() { case "$1" in C06|C13|C16|C17|C19) echo vx-netk;; C07|C10|C18) echo vx-fsx;; *) echo vx-sim;; esac; }
 # job list: "<id> <patch> <check>"
 for d in $src/C*-[mb]*; do
   id=$(basename $d); prop=${id%%-*}
@@ -22,10 +23,14 @@ for d in $src/C*-[mb]*; do
   p=$d/patch.diff; [ -f $d/patch.ported.diff ] && p=$d/patch.ported.diff
   checks=$prop
   [ "$id" = "C06-m2" ] && checks="C06 C16"
+  if [ -n "${SEEDPAR_ENGINE_WIDE:-}" ]; then   # every check served by the engine that serves the change's property
+    case $(engine_of $prop) in
+      vx-netk) checks="C06 C13 C16 C17 C19";; vx-fsx) checks="C07 C10 C18";;
+      *) checks="C01 C02 C03 C04 C05 C08 C09 C11 C12 C14 C15 C20";; esac
+  fi
   for c in $checks; do echo "$id $p $c"; done
 done > $base/jobs.txt
 echo 0 > $base/next
-engine_of() { case "$1" in C06|C13|C16|C17|C19) echo vx-netk;; C07|C10|C18) echo vx-fsx;; *) echo vx-sim;; esac; }
 worker() {
   w=$1; wd=$base/w$w
   mkdir -p $wd/run/evidence $wd/run/replays
